@@ -1461,16 +1461,28 @@ func intrTrimWindow(e *Exec, st *State, fr *Frame, args []Val, in ssa.Instructio
 }
 
 func intrIndexOf(e *Exec, st *State, fr *Frame, args []Val, in ssa.Instruction, rt types.Type) []callRes {
-	c := e.C
-	_, _, sl := e.seqOfVal(st, args[0])
-	r := c.Fresh("index", e.idxSort())
-	minus1 := e.idx(-1)
-	if !e.IntMode {
-		st.assume(c.Or(c.Eq(r, minus1), c.ULt(r, sl)))
-	} else {
-		st.assume(c.And(c.ILe(minus1, r), c.ILt(r, c.Add(sl, c.Inti(1)))))
+	return intrIndexOfStrict(false)(e, st, fr, args, in, rt)
+}
+
+// intrIndexOfStrict: the result is -1 or an index into the haystack; for a search of a single byte / rune / set the
+// index is strictly below the length, for a substring (which may be empty) it may equal the length.
+func intrIndexOfStrict(strict bool) func(e *Exec, st *State, fr *Frame, args []Val, in ssa.Instruction, rt types.Type) []callRes {
+	return func(e *Exec, st *State, fr *Frame, args []Val, in ssa.Instruction, rt types.Type) []callRes {
+		c := e.C
+		_, _, sl := e.seqOfVal(st, args[0])
+		r := c.Fresh("index", e.idxSort())
+		minus1 := e.idx(-1)
+		hi := sl
+		if !strict {
+			hi = c.Add(sl, e.idx(1))
+		}
+		if !e.IntMode {
+			st.assume(c.Or(c.Eq(r, minus1), c.ULt(r, hi)))
+		} else {
+			st.assume(c.Or(c.Eq(r, minus1), c.And(c.ILe(c.Inti(0), r), c.ILt(r, hi))))
+		}
+		return []callRes{{st, r}}
 	}
-	return []callRes{{st, r}}
 }
 
 func init() {
@@ -1485,8 +1497,11 @@ func init() {
 	intrinsics["bytes.TrimRight"] = intrTrimSide(false)
 	intrinsics["strings.TrimLeft"] = intrTrimSide(true)
 	intrinsics["bytes.TrimLeft"] = intrTrimSide(true)
-	for _, n := range []string{"strings.Index", "strings.LastIndex", "strings.IndexByte", "bytes.Index", "bytes.IndexByte", "strings.IndexRune", "strings.IndexAny"} {
-		intrinsics[n] = intrIndexOf
+	for _, n := range []string{"strings.Index", "strings.LastIndex", "bytes.Index"} {
+		intrinsics[n] = intrIndexOfStrict(false)
+	}
+	for _, n := range []string{"strings.IndexByte", "bytes.IndexByte", "strings.IndexRune", "strings.IndexAny"} {
+		intrinsics[n] = intrIndexOfStrict(true)
 	}
 }
 
